@@ -45,6 +45,7 @@ def run_program(prog, chooser, line_budget):
     replies = {}
 
     finished = {}      # task id -> its function has returned / raised
+    fdone = {}         # task id -> event set at the very end of the task FUNCTION (what WorkerGateway._executetask_complete is)
     getres = []
 
     def task(tid):
@@ -59,6 +60,7 @@ def run_program(prog, chooser, line_budget):
             return tid * 10
         finally:
             finished[tid] = True
+            fdone.setdefault(tid, S.SEvent(sc, f"fdone{tid}")).set()
 
     def getter(tid, r, g):
         try:
@@ -80,10 +82,9 @@ def run_program(prog, chooser, line_budget):
             tid = si * 100 + j
             if prog["backend"] == "main_thread_only" and prog["hasprimary"] and prev is not None:
                 # the gateway's submission protocol: only after the previous task's function has returned
-                try:
-                    prev.waitfinish()
-                except Exception:  # noqa
-                    pass
+                # (the function's end, not the reply's: _local_schedulexec waits for the event executetask sets in its finally,
+                # which is earlier than Reply.run marking the reply finished)
+                fdone.setdefault(prev_tid, S.SEvent(sc, f"fdone{prev_tid}")).wait()
             try:
                 r = pool.spawn(task, tid)
             except ValueError:
@@ -92,6 +93,7 @@ def run_program(prog, chooser, line_budget):
             accepted.append(tid)
             replies[tid] = r
             prev = r
+            prev_tid = tid
             for g in range(prog.get("getters", 0)):
                 sc.spawn(getter, (tid, r, g), name=f"getter{tid}_{g}")
             if si == 0 and prog["shutdown_after"] is not None and j + 1 >= prog["shutdown_after"]:
